@@ -240,6 +240,18 @@ def ob_ts_readout(h):
         tv["heat_recovery_target"] >= 0)))
 
 
+def _deps(module, names, prefix, why):
+    """callee contracts this property's clauses are stated against, discharged here as well (same harness objects, other names)"""
+    out = []
+    for o in module.obligations():
+        base = o.name.split("[")[0]
+        if base in names and o.tier == "quick":
+            out.append(Obligation(o.name.replace(base.split(".")[0] + ".", prefix, 1), o.fn, kind=o.kind, functions=o.functions, bound=o.bound, max_paths=o.max_paths, params=o.params,
+                                  timeout_ms=o.timeout_ms, expect=o.expect, stubs=o.stubs, runner=o.runner, time_budget_s=o.time_budget_s,
+                                  doc=f"(callee contract, shared with {base.split('.')[0]}: {why}) " + (o.doc or "")))
+    return out
+
+
 def obligations():
     fs = C01.obligations()[0].functions
     D = ["hot", "cold", "latent"]
@@ -264,4 +276,6 @@ def obligations():
                    doc="modular: the TS record takes the two end values of the shifted utility GCC; Qr by difference; TS record balanced from the callee contracts"),
         Obligation("C02.serialise.b", ob_serialise, kind="bounded", bound="0..2 hot and 0..1 cold utilities on the record", functions=[EnergyTarget.serialize_json]),
     ]
+    from . import C03
+    obs += _deps(C03, ("C03.utilities_list.b", "C03.extremes"), "C02.dep.", "utility streams start from zero duty; default utilities reach the extreme stream temperatures")
     return obs
